@@ -312,6 +312,7 @@ pub async fn cases(w: &mut World, t: &Twin) -> Vec<Case> {
 /// Run the C08 matrix for one world.
 pub async fn run_c08(w: &mut World, m: &mut Mon, r: &mut R, t: &Twin) {
     let ids = Admin::identities(w, t.g0);
+    let (px_a0, px_a1) = (save_price(w, t.a0), save_price(w, t.a1));
     let mut all_ids: Vec<(&'static str, Keypair)> = ids;
     all_ids.push(("authority", w.auth_of(t.acct0)));
     all_ids.push(("liquidator", w.auth_of(t.liquidator0)));
@@ -400,26 +401,83 @@ pub async fn run_c08(w: &mut World, m: &mut Mon, r: &mut R, t: &Twin) {
         m.r.sample_kind("matrix-case", json!({"instruction": c.name, "signer_cells": all_ids.len(), "substitutions": c.subs.iter().map(|s| s.1.clone()).collect::<Vec<_>>()}));
       }
     }
-    scale_price(w, t.a0, 1e7 / 0.012);
-    // frozen account: the group admin acts, the authority cannot
+    restore_price(w, t.a0, px_a0);
+    // frozen account: only the group admin may act; every other identity (authority included) is refused
     let admin = clone_kp(&w.groups[t.g0].admin);
     let i = ix::set_freeze(w.groups[t.g0].key, w.accts[t.acct0].key, admin.pubkey(), true);
     if w.exec(m, &[i], &[&admin]).await.ok() {
-        let auth = w.auth_of(t.acct0);
-        let ta = w.ta_of(t.acct0, t.a0);
-        for (who, kp, must_ok) in [("authority", clone_kp(&auth), false), ("admin", clone_kp(&admin), true)] {
-            let ta2 = if who == "admin" { w.new_token_account(w.banks[t.a0].mint, admin.pubkey(), 1_000_000).await } else { ta };
-            let i = w.ix_deposit(t.acct0, t.a0, kp.pubkey(), ta2, 100, None);
-            let o = w.probe(m, &[i], &[&kp]).await;
-            m.r.eval();
-            m.r.count("C08.frozen_cells");
-            m.r.distinct(&("frozen", who, o.ok()));
-            if o.ok() != must_ok {
-                m.r.violate("C08", &format!("C08/matrix/frozen-account/deposit-by-{}-{}", who, if o.ok() { "accepted" } else { "rejected" }), "frozen account rule".into());
+        for (who, kp) in all_ids.iter() {
+            let owner = kp.pubkey();
+            let (ma, mb) = (w.banks[t.a0].mint, w.banks[t.b0].mint);
+            let ta_a = w.new_token_account(ma, owner, 1_000_000).await;
+            let ta_b = w.new_token_account(mb, owner, 1_000_000).await;
+            let ops: Vec<(&str, Instruction)> = vec![
+                ("deposit", w.ix_deposit(t.acct0, t.a0, owner, ta_a, 100, None)),
+                ("withdraw", w.ix_withdraw(t.acct0, t.a0, owner, ta_a, 1, None)),
+                ("borrow", w.ix_borrow(t.acct0, t.b0, owner, ta_b, 1)),
+                ("repay", w.ix_repay(t.acct0, t.b0, owner, ta_b, 1, None)),
+            ];
+            for (opn, ixn) in ops {
+                let o = w.probe(m, &[ixn], &[kp]).await;
+                m.r.eval();
+                m.r.count("C08.frozen_cells");
+                m.r.distinct(&("frozen", *who, opn, o.ok()));
+                let must_ok = *who == "admin";
+                if o.ok() && !must_ok {
+                    m.r.violate("C08", &format!("C08/matrix/frozen-account/{}-by-{}-accepted", opn, who), "only the group admin may act on a frozen account".into());
+                }
+                if !o.ok() && must_ok {
+                    m.r.violate("C08", &format!("C08/matrix/frozen-account/{}-by-group-admin-rejected", opn), o.err_string());
+                }
             }
         }
         let i = ix::set_freeze(w.groups[t.g0].key, w.accts[t.acct0].key, admin.pubkey(), false);
         let _ = w.exec(m, &[i], &[&admin]).await;
+    }
+    // two liquidatable accounts, two starts, one end: the first account must not stay controllable
+    {
+        scale_price(w, t.a0, 0.012);
+        scale_price(w, t.a1, 0.012);
+        let lq = t.liquidator0;
+        let lk = w.auth_of(lq);
+        let ru = w.accts[lq].user;
+        let tas = w.users[ru].tas.clone();
+        let (va, vb) = (w.accts[t.acct0].key, w.accts[t.acct1].key);
+        for v in [va, vb] {
+            if !w.shadow.contains_key(&ix::liq_record_key(&v)) {
+                let i = ix::init_liq_record(v, lk.pubkey());
+                let _ = w.exec(m, &[i], &[&lk]).await;
+            }
+        }
+        let g0k = w.groups[t.g0].key;
+        let fw = w.fee_wallet.pubkey();
+        let wd = |w: &World, amt: u64| {
+            let mut rem = w.mint_prefix(t.a0);
+            rem.extend(w.risk_metas(t.acct0, None, None));
+            ix::withdraw(g0k, va, lk.pubkey(), w.banks[t.a0].key, tas[w.banks[t.a0].mint], w.token_program_of_bank(t.a0), amt, None, rem)
+        };
+        let ixs = vec![
+            ix::start_liquidation(va, lk.pubkey(), w.risk_metas(t.acct0, None, None)),
+            ix::start_liquidation(vb, lk.pubkey(), w.risk_metas(t.acct1, None, None)),
+            wd(w, 1000),
+            ix::end_liquidation(vb, lk.pubkey(), fw, w.risk_metas(t.acct1, None, None)),
+        ];
+        let o = w.exec(m, &ixs, &[&lk]).await;
+        m.r.eval();
+        m.r.count(if o.ok() { "C08.double_start_transaction_committed" } else { "C08.double_start_transaction_rejected" });
+        // whatever happened, a stranger must not be able to move the first account's funds afterwards
+        let stranger = w.user_kp(3);
+        let sta = w.users[3].tas[w.banks[t.a0].mint];
+        let mut rem = w.mint_prefix(t.a0);
+        rem.extend(w.risk_metas(t.acct0, None, None));
+        let i = ix::withdraw(g0k, va, stranger.pubkey(), w.banks[t.a0].key, sta, w.token_program_of_bank(t.a0), 1000, None, rem);
+        let o2 = w.exec(m, &[i], &[&stranger]).await;
+        m.r.eval();
+        if o2.ok() {
+            m.r.violate("C08", "C08/matrix/stranger-withdraw-after-unclosed-receivership-accepted", "a withdraw signed by a stranger succeeded in a transaction without a receivership bracket".into());
+        }
+        restore_price(w, t.a0, px_a0);
+        restore_price(w, t.a1, px_a1);
     }
     let _ = r;
 }
@@ -488,6 +546,17 @@ pub async fn run_c14(w: &mut World, m: &mut Mon, r: &mut R, t: &Twin) {
         }
     }
     // reduce-only collateral: worth nothing for new borrowing, full for liquidation purposes
+    // (with an e-mode entry in force for the collateral's tag, so that the e-mode path is covered)
+    if r.gen_bool(0.7) {
+        let ea = clone_kp(&w.groups[t.g0].emode);
+        let z: WrappedI80F48 = wi(0.0);
+        let mut entries = [EmodeEntry { collateral_bank_emode_tag: 0, flags: 0, pad0: [0; 5], asset_weight_init: z, asset_weight_maint: z }; MAX_EMODE_ENTRIES];
+        entries[0] = EmodeEntry { collateral_bank_emode_tag: 7, flags: 0, pad0: [0; 5], asset_weight_init: wi(0.9), asset_weight_maint: wi(0.95) };
+        let i1 = ix::configure_bank_emode(gk, ea.pubkey(), w.banks[t.a0].key, 7, [EmodeEntry { collateral_bank_emode_tag: 0, flags: 0, pad0: [0; 5], asset_weight_init: z, asset_weight_maint: z }; MAX_EMODE_ENTRIES]);
+        let i2 = ix::configure_bank_emode(gk, ea.pubkey(), w.banks[t.b0].key, 0, entries);
+        let o = w.exec(m, &[i1, i2], &[&ea]).await;
+        m.r.count(if o.ok() { "C14.emode_configured_for_reduce_only_cell" } else { "C14.emode_configuration_rejected" });
+    }
     {
         scale_price(w, t.a0, 1.0 / 0.012); // healthy again
         let lq_ix = w.ix_liquidate(t.liquidator0, t.acct0, t.a0, t.b0, lk.pubkey(), 1000);
@@ -524,6 +593,14 @@ pub async fn run_c14(w: &mut World, m: &mut Mon, r: &mut R, t: &Twin) {
             let o = w.exec(m, &[dep(w)], &[&auth]).await;
             m.r.count(if o.ok() { "C14.deposit_before_propagation_accepted" } else { "C14.deposit_before_propagation_rejected" });
         }
+        let mut window_end = t0 + 1800;
+        if order == 2 {
+            // extension before the group hears about the pause: the group's window is the extended one
+            if w.exec(m, &[pause.clone()], &[&fa]).await.ok() {
+                window_end = t0 + 3600;
+                m.r.count("C14.extended_pauses_propagated");
+            }
+        }
         let _ = w.exec(m, &[prop.clone()], &[]).await;
         let users_ops = |w: &World| -> Vec<(Instruction, Keypair)> {
             vec![
@@ -546,11 +623,24 @@ pub async fn run_c14(w: &mut World, m: &mut Mon, r: &mut R, t: &Twin) {
                 m.r.distinct(&("pause", dt, o.ok(), o.custom_code()));
             }
         }
-        if order == 2 {
+        if order == 1 {
             // extension of the global pause is not seen by the group until propagated again
             let _ = w.exec(m, &[pause.clone()], &[&fa]).await;
         }
-        for dt in [1800i64, 1801] {
+        if order == 2 {
+            // still inside the extended window
+            for dt in [1800i64, 3599] {
+                w.chain.set_time(t0 + dt);
+                w.refresh_oracles();
+                for (ixn, kp) in users_ops(w) {
+                    let o = w.exec(m, &[ixn], &[&kp]).await;
+                    m.r.eval();
+                    m.r.count("C14.pause_window_cells");
+                    m.r.distinct(&("pause-extended", dt, o.ok(), o.custom_code()));
+                }
+            }
+        }
+        for dt in [window_end - t0, window_end - t0 + 1] {
             w.chain.set_time(t0 + dt);
             w.refresh_oracles();
             let o = w.exec(m, &[dep(w)], &[&auth]).await;
